@@ -274,7 +274,7 @@ def run_chunk(binary, run, seed, lo, hi, outbase, res, prop, env_extra=None):
         key = "%s:%s" % (prop, classify_crash(rc, stderr))
         with res.lock:
             res.viol.append(dict(prop=prop, key=key, case=failed_case, run=run["name"], seed=seed,
-                                 msg="process aborted (rc=%d): %s" % (rc, stderr[-1500:])))
+                                 msg="process aborted (rc=%d): %s" % (rc, stderr[-6000:])))
         cur = failed_case + 1
 
 
